@@ -89,6 +89,10 @@ RULES = {
         ('unhashable key', lambda: sel([target(col('m')), target(COUNT(), 'n')], 't', group_by=GB(col('m'))), 'reject'),
         ('unhashable key set', lambda: sel([target(COUNT(), 'n')], 't', group_by=GB(col('st'))), 'reject'),
         ('unhashable implicit key', lambda: sel([target(col('st')), target(COUNT(), 'n')], 't'), 'reject'),
+        ('unhashable key by position', lambda: sel([target(col('m')), target(COUNT(), 'n')], 't', group_by=GB(1)), 'reject'),
+        ('unhashable key by position 2', lambda: sel([target(COUNT(), 'n'), target(col('st'))], 't', group_by=GB(2)), 'reject'),
+        ('unhashable key by alias', lambda: sel([target(col('m'), 'mm'), target(COUNT(), 'n')], 't', group_by=GB(col('mm'))), 'reject'),
+        ('hashable key by position', lambda: sel([target(col('s')), target(COUNT(), 'n')], 't', group_by=GB(1)), 'accept'),
     ],
     'names': [
         ('unknown table', lambda: sel([target(const(1), 'c')], 'nosuch'), 'reject'),
